@@ -615,6 +615,9 @@ def owner_check(interp, coll, ln):
     owner = interp.__dict__.setdefault('_owners', {}).get(id(coll))
     if owner is not None:
         o, field = owner
+        if type(o).__name__ == 'ClassState':
+            # results would depend on what earlier calls left there: not a per-call contract any more (undecided, not an alarm)
+            raise Unsupported(f"store into {o.tag}: state carried from call to call is not modelled")
         record_write(interp, o, field + '[...]', ln)
 
 
